@@ -690,6 +690,7 @@ std::size_t CDNS::FilePreamble::write(CdnsEncoder& enc)
 void CDNS::FilePreamble::read(CdnsDecoder& dec)
 {
     reset();
+    m_private_version = boost::none;
     bool is_m_major_format_version = false;
     bool is_m_minor_format_version = false;
     bool is_m_block_parameters = false;
